@@ -241,6 +241,11 @@ func (c *converter) syncPartial() {
 	for _, ing := range c.changed.IngressesDel {
 		delete(ingMap, ing.Namespace+"/"+ing.Name)
 	}
+	for _, ing := range c.changed.IngressesUpd {
+		// an updated ingress might not be tracked yet, e.g. it
+		// didn't declare a valid host or backend before the update
+		ingMap[ing.Namespace+"/"+ing.Name] = nil
+	}
 	for _, ing := range c.changed.IngressesAdd {
 		// always read from the cache: an added ingress can also be
 		// updated or deleted in the same batch of changes
